@@ -150,14 +150,21 @@ def _events(rec):
 def h_split(start: int, dt: int, d1: int, d2: int, e: float) -> bool:
     """
     pre: 0 <= start <= 2000000000 and 30 <= dt <= 120 and 0 <= d1 and d1 <= d2 and d2 <= 2000000000
-    pre: 5 <= e <= 50
+    pre: 1 <= e <= 50
     post: _
     """
     a, b = A_STEPS, B_STEPS
     n = a + b
     rp1, rec1 = _payload(start, dt, d1, d2, e, n)
     r_a = hive_cosim.crank(rp1, a)  # ---- real code
-    r_ab = hive_cosim.crank(r_a.runner_payload, b)
+    # a co-simulation user hands a generator back between two calls (runner_payload_ops): here the same, non-last
+    # generator is re-injected unchanged, which must not alter anything -- in particular not the priority order
+    from nrel.hive.runner import runner_payload_ops as rpo
+
+    mid = r_a.runner_payload
+    cfm = rpo.get_instruction_generator(mid, "ChargingFleetManager")
+    mid = rpo.update_instruction_generator(mid, cfm)
+    r_ab = hive_cosim.crank(mid, b)
     rp2, rec2 = _payload(start, dt, d1, d2, e, n)
     r_n = hive_cosim.crank(rp2, n)
     rp3, rec3 = _payload(start, dt, d1, d2, e, n)
